@@ -252,8 +252,7 @@ fn multi_section(b: &Bounds, idle_only: bool) -> Stats {
                 } else if !p.who.is_empty() {
                     format!("C36/run_hooks/{}/{}", p.class, p.who)
                 } else {
-                    let kinds: BTreeSet<&str> = states.iter().map(|s| s.kind.name()).collect();
-                    format!("C36/run_hooks/{}/{:?}", p.class, kinds)
+                    format!("C36/run_hooks/{}", p.class)
                 };
                 st.violation(
                     key,
